@@ -67,6 +67,9 @@ def binop(it, op, a, b, node=None):
             for x, m in ((a, b), (b, a)):
                 if isinstance(m, int) and not isinstance(m, bool) and m >= 0 and (m & (m + 1)) == 0:
                     return int_term(x) % (m + 1)
+                # x & ~(2^k - 1)  (mask = -(2^k)) clears the k low bits:  x - (x mod 2^k)
+                if isinstance(m, int) and not isinstance(m, bool) and m < 0 and ((-m) & (-m - 1)) == 0:
+                    return int_term(x) - (int_term(x) % (-m))
         raise Unsupported('symbolic int operator %s' % op.__class__.__name__)
     # ---- bytes
     if is_byteslike(a) and is_byteslike(b):
